@@ -11,7 +11,7 @@
    (it need not be: C10_probe_refuted). *)
 From CV Require Import Base.Tac Base.LinAlg Base.Cmp Model.C10_Conj Model.C10_ConjR
                        Proofs.C10_Kernel Proofs.C10_Exact Proofs.C10_Valid Proofs.C10_Carrier
-                       Proofs.C10_Approx Proofs.C10_Probe2 Proofs.C10_Vec Proofs.C10_Full Proofs.C10_Checks.
+                       Proofs.C10_Approx Proofs.C10_Probe2 Proofs.C10_Vec Proofs.C10_Full Proofs.C10_Checks Proofs.C10_Life.
 From Coq Require Import Reals QArith Qabs Qreals.
 
 (* ------------------------------------------------------------------------------------------------- *)
@@ -478,6 +478,39 @@ Theorem C10_checks_sound :
          <= Q2R tol9 * Rabs (r_rate (Q2Rm L) (Q2Rv Ax) (Q2Rv b) (Q2R beta)))%R).
 Proof. exact (conj check_shape_sound check_rate_sound). Qed.
 Print Assumptions C10_checks_sound.
+
+(* ------------------------------------------------------------------------------------------------- *)
+(* 11. the refusals hold in every state of a sampler object                                            *)
+(* ------------------------------------------------------------------------------------------------- *)
+
+(* `sampler.target = value` on a sampler that is un-initialised, initialised, has stepped / warmed up / sampled, with or
+   without an earlier target: along ANY history of assignments every target gets exactly the verdict a fresh sampler gives
+   it -- in particular an accepted one has the supported structure -- and initialisation is not touched *)
+Theorem C10_retarget_validates_in_every_state :
+  forall (k : bool) (i : iface) (smp : exp_sampler) (ts : list target),
+    snd (assign_all k i smp ts) = map (validate i) ts
+    /\ (forall t key, snd (set_target k IExp smp t) = Accept key -> accepted_structure t key)
+    /\ (forall t, es_initialized (fst (set_target k i smp t)) = es_initialized smp).
+Proof.
+  exact (fun k i smp ts => conj (assign_all_verdicts k i smp ts)
+                                (conj (fun t key => retarget_accept_structure k smp t key) (set_target_keeps_initialized k i smp))).
+Qed.
+Print Assumptions C10_retarget_validates_in_every_state.
+
+(* FINDING (known_findings.tsv: exp.Conjugate|refused-target-retained): the setter assigns before it validates, so a refused
+   target stays in the object (and a later step() samples it) *)
+Theorem C10_refused_target_retained_refuted :
+  exists smp t r, snd (set_target true IExp smp t) = Reject r /\ es_target (fst (set_target true IExp smp t)) = Some t
+                  /\ es_target smp <> Some t.
+Proof. exact refused_target_retained. Qed.
+Print Assumptions C10_refused_target_retained_refuted.
+
+(* with the repaired setter (fixes/C10_retarget_restore.diff) the object always holds the last accepted target *)
+Theorem C10_retarget_restoring_holds_last_accepted :
+  forall (i : iface) (smp : exp_sampler) (ts : list target),
+    es_target (fst (assign_all false i smp ts)) = last_accepted i (es_target smp) ts.
+Proof. exact assign_all_restoring_holds_last_accepted. Qed.
+Print Assumptions C10_retarget_restoring_holds_last_accepted.
 
 (* ------------------------------------------------------------------------------------------------- *)
 (* non-vacuity: the hypotheses of the exactness theorems are satisfiable                              *)
